@@ -646,7 +646,7 @@ The statement at full strength,
     theorem decode_sound : envWF env → fieldFlagsWF env → tyWF env t →
         decode E env perms strict t j = .ok v → validB E env t v = true
 
-is FALSE of the model (and of the Python it mirrors) in four ways; each has a witness below.
+is FALSE of the model (and of the Python it mirrors) in three ways; each has a witness below.
  (a) `decode` (the helper) does not validate primitives, lists or maps itself: the enclosing assignment,
      constructor or the entry point does. So the statement is about `jsonCompatObjDecode` at any type, and about
      `decode` at struct / enumerated-subtypes / union types.
@@ -655,24 +655,25 @@ is FALSE of the model (and of the Python it mirrors) in four ways; each has a wi
      value there is the base struct).
  (c) a caller holding a permission decodes a tag omitted for that caller class: clause `publicTag?` of `validB`
      at `.union` fails (`validB` is the validity of the permission-less view).
- (d) a struct field whose type is an enumerated-subtypes root with no required field, absent from the document:
-     the decoder stores `Root()` (`has_default()` / `get_default()` are inherited from `bv.Struct`), which is
-     not an instance of any leaf; clause `(leafTag? env cls c).isSome` fails — in strict mode too, catch-all or
-     not. Replayed on the Python: `json_compat_obj_decode(bv.Struct(S), {}, strict=True)` returns
-     `S(r=R())` and `json_compat_obj_encode` of that value raises AssertionError.
-The proved statements exclude exactly (b), (c), (d).
+ The proved statements exclude exactly (b) and (c).
+
+ A fourth way, (d), was a genuine defect and has been REPAIRED in stone_validators.py (`StructTree.has_default()`
+ is now `False`; the model's `hasDefault` mirrors it): a struct field whose type is an enumerated-subtypes root
+ with no required field, absent from the document, used to be filled with `Root()` (`has_default()` /
+ `get_default()` inherited from `bv.Struct`), which is not an instance of any leaf. The document is now refused
+ with "missing required field" (example on `env1` at the end), and the former hypothesis `noDefaultedTrees env`
+ of the theorems below is gone (it holds of every environment: `noDefaultedTrees_holds`).
 -/
 
 /-- `json_compat_obj_decode`, any well-formed type: what is returned is valid for the type (`validB`: deep
 validity, required fields present, union payloads valid). Hypotheses: strict mode or no catch-all trees (b);
-every tag the caller sees is public, e.g. `perms = []` (c); no enumerated-subtypes root without required fields is
-a field type (d). -/
+every tag the caller sees is public, e.g. `perms = []` (c). -/
 theorem decode_sound_partial (E : Ext) (env : Env) (perms : List String) (strict : Bool) (t : PTy) (j : JVal)
     (v : PyVal) (hwf : envWF env = true) (hff : fieldFlagsWF env = true) (ht : tyWF env t = true)
     (hcat : strict = true ∨ noCatchAllTrees env = true)
-    (hvis : visibleTagsPublic env perms = true) (hdt : noDefaultedTrees env = true)
+    (hvis : visibleTagsPublic env perms = true)
     (h : jsonCompatObjDecode E env perms strict t j = .ok v) : validB E env t v = true :=
-  jsonCompatObjDecode_valid E env perms strict hwf hff hcat hvis hdt t j v ht h
+  jsonCompatObjDecode_valid E env perms strict hwf hff hcat hvis t j v ht h
 
 /-- The recursive helper at user-defined types (struct, enumerated subtypes, union — at any nesting depth, since
 `decode` is one recursive function): what is returned is valid for the type. -/
@@ -680,9 +681,9 @@ theorem decode_sound_user_partial (E : Ext) (env : Env) (perms : List String) (s
     (v : PyVal) (hwf : envWF env = true) (hff : fieldFlagsWF env = true) (ht : tyWF env t = true)
     (hu : isUserTy t = true)
     (hcat : strict = true ∨ noCatchAllTrees env = true)
-    (hvis : visibleTagsPublic env perms = true) (hdt : noDefaultedTrees env = true)
+    (hvis : visibleTagsPublic env perms = true)
     (h : decode E env perms strict t j = .ok v) : validB E env t v = true :=
-  (Pre_user E env t v hu).mp (decode_pre E env perms strict hwf hff hcat hvis hdt j t ht v h)
+  (Pre_user E env t v hu).mp (decode_pre E env perms strict hwf hff hcat hvis j t ht v h)
 
 /-- For the caller without permissions the second hypothesis is free. -/
 theorem visibleTagsPublic_nil (env : Env) : visibleTagsPublic env [] = true := by
@@ -694,18 +695,18 @@ theorem visibleTagsPublic_nil (env : Env) : visibleTagsPublic env [] = true := b
 theorem decode_valid_or_rejected (E : Ext) (env : Env) (perms : List String) (strict : Bool) (t : PTy) (j : JVal)
     (hwf : envWF env = true) (hff : fieldFlagsWF env = true) (ht : tyWF env t = true)
     (hcat : strict = true ∨ noCatchAllTrees env = true)
-    (hvis : visibleTagsPublic env perms = true) (hdt : noDefaultedTrees env = true) :
+    (hvis : visibleTagsPublic env perms = true) :
     (∃ v, jsonCompatObjDecode E env perms strict t j = .ok v ∧ validB E env t v = true) ∨
     Rejected (jsonCompatObjDecode E env perms strict t j) := by
   cases h : jsonCompatObjDecode E env perms strict t j with
-  | ok v => exact Or.inl ⟨v, rfl, decode_sound_partial E env perms strict t j v hwf hff ht hcat hvis hdt h⟩
+  | ok v => exact Or.inl ⟨v, rfl, decode_sound_partial E env perms strict t j v hwf hff ht hcat hvis h⟩
   | error e =>
     cases e with
     | verr m => exact Or.inr ⟨m, rfl⟩
     | crash c => exact absurd h (jsonCompatObjDecode_no_crash E env perms strict t j hwf hff ht c)
 
 /-- non-vacuity on `env0` (which has a catch-all tree, so: strict mode) -/
-example : noDefaultedTrees env0 = true ∧ visibleTagsPublic env0 [] = true ∧ noCatchAllTrees env0 = false := by
+example : visibleTagsPublic env0 [] = true ∧ noCatchAllTrees env0 = false := by
   decide +kernel
 example :
     (match jsonCompatObjDecode E0 env0 [] true (.map {} (.str {} none none none) (.union {} "ns.U"))
@@ -731,16 +732,31 @@ example : decode E0 env0 ["internal"] true (.union {} "ns.U") (.str "p") = .ok (
     validB E0 env0 (.union {} "ns.U") (.union "ns.U" "p" .none) = false ∧
     visibleTagsPublic env0 ["internal"] = false := ⟨rfl, by decide +kernel, by decide +kernel⟩
 
-/-- witness (d): `struct T { r R2 }`, `R2` an enumerated-subtypes root (closed) whose only field is optional -/
+/-- former witness (d), now the repaired behaviour: `struct T { r R2 }`, `R2` an enumerated-subtypes root (closed)
+whose only field is optional. `r` absent from the document used to decode to `T(r=R2())` (invalid: `R2()` is no leaf);
+since `StructTree.has_default()` is `False` the document is refused, in both modes, and through the entry point. -/
 def fA2 : FieldDef := ⟨"a", .int { nullable := true } "Int32" (-5) 5, true, false, none, none⟩
 def env1 : Env := ⟨[⟨"ns.R2", [⟨"ns.R2", [fA2]⟩], some [(["f"], "ns.F2", false)], false⟩,
     ⟨"ns.F2", [⟨"ns.R2", [fA2]⟩, ⟨"ns.F2", [fN]⟩], none, false⟩,
     ⟨"ns.T", [⟨"ns.T", [⟨"r", .tree {} "ns.R2", false, true, none, none⟩]⟩], none, false⟩], []⟩
-example : envWF env1 = true ∧ fieldFlagsWF env1 = true ∧ noCatchAllTrees env1 = true ∧
-    noDefaultedTrees env1 = false := by decide +kernel
-example : decode E0 env1 [] true (.struct {} "ns.T") (.obj []) = .ok (.struct "ns.T" [("r", .struct "ns.R2" [])]) ∧
+example : envWF env1 = true ∧ fieldFlagsWF env1 = true ∧ noCatchAllTrees env1 = true := by decide +kernel
+/-- the root has no required field (as a plain struct type it would have the implicit default), yet as a tree it has none -/
+example : hasDefault env1 (.struct {} "ns.R2") = true ∧ hasDefault env1 (.tree {} "ns.R2") = false ∧
+    hasDefault env1 (.tree { nullable := true } "ns.R2") = true := by decide +kernel
+example : decode E0 env1 [] true (.struct {} "ns.T") (.obj []) = verr "missing required field" ∧
+    decode E0 env1 [] false (.struct {} "ns.T") (.obj []) = verr "missing required field" ∧
+    jsonCompatObjDecode E0 env1 [] true (.struct {} "ns.T") (.obj []) = verr "missing required field" ∧
+    (∀ v, decode E0 env1 [] true (.struct {} "ns.T") (.obj []) ≠ .ok v) ∧
+    -- the value formerly returned is (still) not valid for the type
     validB E0 env1 (.struct {} "ns.T") (.struct "ns.T" [("r", .struct "ns.R2" [])]) = false ∧
-    (∃ m, decode E0 env1 [] true (.struct {} "ns.T") (.obj [("r", .obj [])]) = .error (.verr m)) :=
-  ⟨rfl, by decide +kernel, ⟨_, rfl⟩⟩
+    -- the root written out without `.tag` is refused as before; a leaf is accepted and valid
+    (∃ m, decode E0 env1 [] true (.struct {} "ns.T") (.obj [("r", .obj [])]) = .error (.verr m)) ∧
+    (match decode E0 env1 [] true (.struct {} "ns.T") (.obj [("r", .obj [(".tag", .str "f"), ("n", .str "x")])]) with
+     | .ok (.struct "ns.T" [("r", .struct "ns.F2" [("n", .str "x")])]) => true
+     | _ => false) = true ∧
+    validB E0 env1 (.struct {} "ns.T") (.struct "ns.T" [("r", .struct "ns.F2" [("n", .str "x")])]) = true :=
+  ⟨rfl, rfl, rfl, fun _ h => (by cases h), by decide +kernel, ⟨_, rfl⟩, by decide +kernel, by decide +kernel⟩
+/-- the dropped hypothesis is a theorem now -/
+example (env : Env) : noDefaultedTrees env = true := noDefaultedTrees_holds env
 
 end StoneVerif.C06
